@@ -1,4 +1,5 @@
 """C18 — Images: exported files and inline image data reproduce the samples exactly."""
+import html
 import io
 import os
 import random
@@ -222,6 +223,17 @@ def _export(pdf):
             for fn in sorted(os.listdir(out)):
                 with open(os.path.join(out, fn), "rb") as f:
                     files[fn] = f.read()
+        # second run through the XML converter: the names it reports must identify the files
+        out2 = os.path.join(base, "img2")
+        fp = io.StringIO()
+        extract_text_to_fp(io.BytesIO(pdf), fp, output_type="xml", codec=None, output_dir=out2)
+        srcs = [html.unescape(m) for m in re.findall(r'<image src="([^"]*)"', fp.getvalue())]
+        files2 = {}
+        if os.path.isdir(out2):
+            for fn in sorted(os.listdir(out2)):
+                with open(os.path.join(out2, fn), "rb") as f:
+                    files2[fn] = f.read()
+        files["\0xml"] = (srcs, files2)
         return files
     finally:
         shutil.rmtree(base, ignore_errors=True)
@@ -265,6 +277,24 @@ def _check_export(case, classes, nt):
         return Outcome(classes, nt, fail="export raised %s: %s at %s:%d (%s); images: %s" % (
             type(e).__name__, e, os.path.basename(tb.filename), tb.lineno, tb.line,
             "; ".join(_describe(x) for x in expect)))
+    srcs, files2 = files.pop("\0xml")
+    if len(srcs) != len(expect) or len(set(srcs)) != len(srcs) or any(n not in files2 for n in srcs):
+        return Outcome(classes, nt, fail="XML output names the exported images %r; files written: %r; %d distinct images were "
+                       "painted: %s" % (srcs, sorted(files2), len(expect), "; ".join(_describe(x) for x in expect)))
+    for src, e in zip(srcs, expect):
+        data = files2[src]
+        if e["fmt"] == "jpg":
+            ok = data == e["data"]
+        else:
+            try:
+                bm = B.read_bmp(data)
+                ok = (bm.width, bm.height) == (e["w"], e["h"]) and b"".join(bytes(p) for row in bm.pixels for p in row) == \
+                    expected_rgb(e["kind"], e["w"], e["h"], e["data"])
+            except B.BMPError:
+                ok = False
+        if not ok:
+            return Outcome(classes, nt, fail="the file %r that the XML output names for image #%d does not hold that image (%s); "
+                           "names=%r" % (src, srcs.index(src), _describe(e), srcs))
     want = Counter()
     for e in expect:
         if e["fmt"] == "jpg":
